@@ -57,7 +57,7 @@ async def emit_case(case):
     import contextlib
     block = c.reconfigure(credentials=creds) if case.get("via") == "reconfigure" else contextlib.nullcontext()
     try:
-      with block:
+      with block, debug_logging(bool(case.get("debuglog"))):
           if op == "get":
               await c.get(oids[0])
           elif op == "multiget":
@@ -176,9 +176,17 @@ async def deliver_case(case):
                 async for vb in c.walk(OID(".".join(map(str, arcs[0][:-1])))):
                     r.append(vb.value)
                     break
+            elif api in ("py.get", "py.multiget"):
+                # the same values as they reach a caller of the pythonic API (the documented conversion of each type)
+                from puresnmp import PyWrapper
+                so = [".".join(map(str, a)) for a in arcs]
+                pv = [await PyWrapper(c).get(so[0])] if api == "py.get" else await PyWrapper(c).multiget(so)
+                r = None
+                got = dict(kind="result", vals=[form_of_py(k, v) for (k, _, _), v in zip(case["values"], pv)])
             else:
                 r = await c.multiget(O)
-            got = dict(kind="result", vals=[form_of_x690(v) for v in r])
+            if r is not None:
+                got = dict(kind="result", vals=[form_of_x690(v) for v in r])
         except Exception as e:  # noqa
             got = dict(kind="exc", cls=exc_name(e), vals=[])
     finally:
